@@ -177,8 +177,21 @@ def run_axis(spec):
         # ---- normalisation
         alt = spec.get("alt", False)
         if alt:
-            N = nta.NormalizationAnalyzer()
-            N.set_input(T)
+            # re-use: built on ANOTHER series (other rate, unit, length, t0), results read, then set_input(T)
+            rs0 = np.random.RandomState(spec["seed"] + 7)
+            A0 = ts.TimeSeries(rs0.randn(*(tuple(data.shape[:-1]) + (n + 17,))), sampling_interval=3.7, t0=11.0,
+                               time_unit={"s": "ms", "ms": "us", "us": "s"}[spec["u"]])
+
+            def reuse(cls, reads=()):
+                k0 = len(fr.seen)
+                an = cls(A0)
+                if spec.get("alt_read_first", True):
+                    for r_ in reads:
+                        getattr(an, r_)
+                del fr.seen[k0:]          # what was handed over while analysing A0 is not about T
+                an.set_input(T)
+                return an
+            N = reuse(nta.NormalizationAnalyzer, ("z_score",))
         else:
             N = nta.NormalizationAnalyzer(T)
         z = out("NormalizationAnalyzer.z_score", "ONorm", lambda: N.z_score)
@@ -190,7 +203,7 @@ def run_axis(spec):
             diff("NormalizationAnalyzer.percent_change", lambda: (
                 p.data, (data / data.mean(-1)[..., None] - 1) * 100))
         # ---- Hilbert
-        H = nta.HilbertAnalyzer(input=T) if alt else nta.HilbertAnalyzer(T)
+        H = reuse(nta.HilbertAnalyzer, ("amplitude",)) if alt else nta.HilbertAnalyzer(T)
         ha = out("HilbertAnalyzer.analytic", "OAnalytic", lambda: H.analytic)
         for nm in ("amplitude", "phase", "real", "imag"):
             out("HilbertAnalyzer." + nm, "ODerived", lambda nm=nm: getattr(H, nm))
@@ -235,7 +248,12 @@ def run_axis(spec):
             out("FilterAnalyzer.filtered_boxcar", "OFilt", lambda: nta.FilterAnalyzer(T, lb=lb, ub=ub).filtered_boxcar)
         # ---- spectral
         # alt: a method dict without 'Fs' (the analyzer has to take the rate from the series)
-        S = nta.SpectralAnalyzer(input=T, method={"this_method": "welch", "NFFT": 64}) if alt else nta.SpectralAnalyzer(T)
+        if alt and spec.get("alt_spectral", 0) == 0:
+            S = reuse(nta.SpectralAnalyzer, ("psd", "periodogram") if nd <= 2 else ("psd",))
+        elif alt:
+            S = nta.SpectralAnalyzer(input=T, method={"this_method": "welch", "NFFT": 64})
+        else:
+            S = nta.SpectralAnalyzer(T)
         if n >= 64:
             def d_psd():
                 f, pxx = S.psd
@@ -276,8 +294,7 @@ def run_axis(spec):
             c = data.shape[0]
             # ---- correlation
             if alt:
-                C = nta.CorrelationAnalyzer()
-                C.set_input(T)
+                C = reuse(nta.CorrelationAnalyzer, ("xcorr",))
             else:
                 C = nta.CorrelationAnalyzer(T)
             xc = out("CorrelationAnalyzer.xcorr", "OXcorr", lambda: C.xcorr)
@@ -757,7 +774,7 @@ def gen_axis_spec(rng, quick, k):
             "wav_array": rng.random() < 0.6, "log_morlet": rng.random() < 0.3,
             "scale_pow": rng.choice([0, 0, 0, -60, -40, -20, -7, 5, 17, 30, 40]), "offset": rng.choice([0.0, 0.0, 3.0, -7.5, 100.0]),
             "layout": rng.choice(["C", "C", "F", "strided", "list"]), "derive": rng.choice([None, None, "copy", "time", "positional"]),
-            "alt": rng.random() < 0.35,
+            "alt": rng.random() < 0.35, "alt_read_first": rng.random() < 0.6, "alt_spectral": rng.choice([0, 0, 1]),
             "filt": rng.choice([{"lb": 0.0, "ub_frac": 0.25}, {"lb": 0.05, "ub_frac": 0.3}, {"lb": 0.1, "ub_frac": None},
                                 {"lb": 0.0, "ub_frac": None}, {"lb": 0.0, "ub_frac": 0.4}])}
     if nd <= 2:
@@ -855,6 +872,193 @@ def gen_read_spec(rng, k):
     return spec
 
 
+# ----------------------------------------------------------------------------- re-use histories
+KEY_SETINPUT = "C15/set_input/%s/init-derived-state"
+KEY_SHARED = "C15/method-dict/shared-between-analyzers"
+ATTR = {"RPsd": "psd", "RCpsd": "cpsd", "RPeriodogram": "periodogram", "RFourier": "spectrum_fourier",
+        "RMultiTaper": "spectrum_multi_taper", "RSpectrum": "spectrum", "RFrequencies": "frequencies",
+        "RCache": "cache", "RSparseFrequencies": "frequencies"}
+CLS_ATTRS = {"ASpectral": ["RPsd", "RCpsd", "RPeriodogram", "RFourier"], "ACoherence": ["RSpectrum", "RFrequencies"],
+             "ASparse": ["RCache", "RSparseFrequencies"]}
+CLS_NAME = {"ASpectral": "SpectralAnalyzer", "ACoherence": "CoherenceAnalyzer", "ASparse": "SparseCoherenceAnalyzer"}
+
+
+def run_seq(spec):
+    """spec: series (list of build specs), ops (list of dicts).  Runs the history on real objects and records,
+    per read, the Fs the algorithm layer was called with and a comparison with the direct call on the CURRENT input."""
+    import nitime.analysis as nta
+    import nitime.algorithms as tsa
+    import matplotlib.mlab as mlab
+    rec = {"spec": spec, "errors": [], "seen": [], "reads": []}
+    try:
+        built = [build_series(sp) for sp in spec["series"]]
+    except Exception as e:  # noqa
+        rec["errors"].append(("input", "%s: %s" % (type(e).__name__, str(e)[:100])))
+        return rec
+    rec["sobs"] = [obs_of(T) for T, _ in built]
+    dicts, ans, cur, cls_of, dict_of = [], [], [], [], []
+    with warnings.catch_warnings():
+        warnings.simplefilter("ignore")
+        for i, o in enumerate(spec["ops"]):
+            try:
+                if o["op"] == "newdict":
+                    dicts.append({"this_method": "welch", "NFFT": 64})
+                    rec["seen"].append(None)
+                elif o["op"] == "init":
+                    T = built[o["s"]][0]
+                    m = None if o["d"] is None else dicts[o["d"]]
+                    if o["c"] == "ASpectral":
+                        an = nta.SpectralAnalyzer(T, method=m)
+                    elif o["c"] == "ACoherence":
+                        an = nta.CoherenceAnalyzer(T, method=m)
+                    else:
+                        an = nta.SparseCoherenceAnalyzer(T, ij=[(0, 1)], method=m)
+                    ans.append(an); cur.append(o["s"]); cls_of.append(o["c"]); dict_of.append(o["d"])
+                    rec["seen"].append(None)
+                elif o["op"] == "set_input":
+                    ans[o["a"]].set_input(built[o["s"]][0])
+                    cur[o["a"]] = o["s"]
+                    rec["seen"].append(None)
+                else:
+                    an, (T, data) = ans[o["a"]], built[cur[o["a"]]]
+                    fs = float(T.sampling_rate)
+                    with FsRec() as fr:
+                        val = getattr(an, ATTR[o["r"]])
+                    seen = [float.fromhex(h) for _, h in fr.seen]
+                    rec["seen"].append(seen[0].hex() if seen else None)
+                    rd = {"i": i, "a": o["a"], "cls": cls_of[o["a"]], "r": o["r"], "cur": fs.hex(), "dt": int(T.sampling_interval),
+                          "seen": [v.hex() for v in seen[:4]], "shared": dict_of[o["a"]] is not None and
+                          sum(1 for d in dict_of if d == dict_of[o["a"]]) > 1, "diff_ok": None}
+                    n = data.shape[-1]
+                    ref = None
+                    if o["r"] == "RPsd":
+                        rows_ = [mlab.psd(r_, NFFT=64, Fs=fs, detrend=mlab.detrend_none, window=mlab.window_hanning, noverlap=32) for r_ in data]
+                        ref = np.concatenate([np.ravel(rows_[0][1])] + [np.ravel(p_[0]) for p_ in rows_])
+                    elif o["r"] == "RCpsd":
+                        f_, c_ = tsa.get_spectra(data, method={"this_method": "welch", "Fs": fs, "NFFT": 64})
+                        ref = np.concatenate([np.ravel(f_), np.ravel(c_)])
+                    elif o["r"] == "RPeriodogram":
+                        f_, p_ = tsa.periodogram(data, Fs=fs)
+                        ref = np.concatenate([np.ravel(f_), np.ravel(p_)])
+                    elif o["r"] == "RFourier":
+                        f_ = np.linspace(0, fs / 2, n // 2 + 1)
+                        ref = np.concatenate([f_, np.ravel(np.fft.fft(data)[..., :f_.shape[0]])])
+                    if ref is not None:
+                        got = np.concatenate([np.ravel(val[0]), np.ravel(val[1])])
+                        rd["diff_ok"] = close(got, ref, rtol=RTOL + 2.0 / max(rd["dt"], 1))
+                    rec["reads"].append(rd)
+            except Exception as e:  # noqa
+                rec["errors"].append(("%s[op %d]" % (o.get("c") or o.get("r") or o["op"], i), "%s: %s" % (type(e).__name__, str(e)[:100])))
+                rec["seen"].append(None)
+    return rec
+
+
+def series_coq(o):
+    return "(mk_series (mk_axis %s %s %s %s) %s)" % (zlit(o["t0"]), zlit(o["dt"]), UNITS.get(o["u"], "UW"), zlit(o["n"]),
+                                                     flit(float.fromhex(o["fs"])))
+
+
+def seq_case(rec):
+    spec, so = rec["spec"], rec["sobs"]
+    ops = []
+    for o in spec["ops"]:
+        if o["op"] == "newdict":
+            ops.append("(OpNewDict None)")
+        elif o["op"] == "init":
+            ops.append("(OpInit %s %s %s)" % (o["c"], "None" if o["d"] is None else "(Some %d%%nat)" % o["d"], series_coq(so[o["s"]])))
+        elif o["op"] == "set_input":
+            ops.append("(OpSetInput %d%%nat %s)" % (o["a"], series_coq(so[o["s"]])))
+        else:
+            ops.append("(OpRead %d%%nat %s)" % (o["a"], o["r"]))
+    seen = llit(["None" if h is None else "(Some %s)" % flit(float.fromhex(h)) for h in rec["seen"]])
+    kinds = sorted({o["c"] for o in spec["ops"] if o["op"] == "init"})
+    kl = "seq/%s/%s%s" % ("+".join(k[1:] for k in kinds), "set_input" if any(o["op"] == "set_input" for o in spec["ops"]) else "no-set_input",
+                           "/shared-dict" if any(o["op"] == "newdict" for o in spec["ops"]) else "")
+    return Case("(%s, %s)" % (llit(ops), seen), {"kind": "seq", "spec": spec}, kl)
+
+
+def oracle_seq(rec):
+    for name, msg in rec["errors"]:
+        yield Fail("C15/seq/%s/exception" % name, "%s raised %s" % (name, msg), msg, "a result")
+    for rd in rec["reads"]:
+        cur = float.fromhex(rd["cur"])
+        name = "%s.%s" % (CLS_NAME[rd["cls"]], ATTR[rd["r"]])
+        tol = (1e-12 + 1.0 / max(rd["dt"], 1)) * abs(cur)
+        stale = [float.fromhex(h) for h in rd["seen"] if not abs(float.fromhex(h) - cur) <= tol]
+        if not rd["seen"]:
+            yield Fail("C15/seq/%s/no-Fs" % name, "%s (operation %d) called no algorithm entry point with an Fs" % (name, rd["i"]), None, cur)
+        if stale or rd["diff_ok"] is False:
+            what = ("%s (operation %d of the history) handed Fs=%r to the algorithm layer, the series being analysed has %r Hz"
+                    % (name, rd["i"], stale[0], cur)) if stale else (
+                "%s (operation %d) differs (values or frequency axis) from the direct algorithm call on the current series' data and rate" % (name, rd["i"]))
+            if rd["cls"] == "ASpectral":
+                key = "C15/seq/%s/%s" % (name, "Fs" if stale else "differential")
+            elif rd["shared"]:
+                key = KEY_SHARED
+            else:
+                key = KEY_SETINPUT % CLS_NAME[rd["cls"]]
+            yield Fail(key, what, stale[0] if stale else None, cur)
+
+
+def gen_seq_spec(rng, k):
+    us = ["s", "ms", "us"]
+    rng.shuffle(us)
+    series = []
+    for j in range(3):
+        x, _ = gen_interval(rng)
+        u = us[j]
+        ps = max(10 ** 6, min(float(x) * FACT[_], 2.0 ** 44)) * rng.choice([1, 3, 7])   # clearly different rates
+        series.append({"mode": "interval", "x": float(ps / FACT[u]).hex(), "t0": float(rng.randint(1, 50)).hex(), "u": u,
+                       "shape": [rng.randint(2, 3), rng.choice([96, 100, 128, 131])], "seed": rng.randint(0, 2 ** 31 - 1)})
+    ops = []
+    t = k % 5
+    if t == 0:      # construct on A, maybe read, set_input(B), read
+        r = rng.choice(CLS_ATTRS["ASpectral"])
+        ops = [{"op": "init", "c": "ASpectral", "d": None, "s": 0}]
+        if rng.random() < 0.5:
+            ops.append({"op": "read", "a": 0, "r": rng.choice(CLS_ATTRS["ASpectral"])})
+        ops += [{"op": "set_input", "a": 0, "s": 1}, {"op": "read", "a": 0, "r": "RPsd"}, {"op": "read", "a": 0, "r": r}]
+        if rng.random() < 0.5:
+            ops += [{"op": "set_input", "a": 0, "s": 2}, {"op": "read", "a": 0, "r": rng.choice(CLS_ATTRS["ASpectral"])}]
+    elif t == 1:    # one method dict without 'Fs' shared by two or three analyzers, reads in shuffled order
+        na = rng.randint(2, 3)
+        ops = [{"op": "newdict"}] + [{"op": "init", "c": "ASpectral", "d": 0, "s": j} for j in range(na)]
+        reads = [{"op": "read", "a": a, "r": r} for a in range(na) for r in rng.sample(CLS_ATTRS["ASpectral"], 2)]
+        rng.shuffle(reads)
+        ops += [{"op": "read", "a": 0, "r": "RCpsd"}] + [r for r in reads if not (r["a"] == 0 and r["r"] == "RCpsd")]
+    else:           # random histories over all three classes
+        nd_ = rng.randint(0, 2)
+        ops = [{"op": "newdict"} for _ in range(nd_)]
+        na = rng.randint(1, 3)
+        for a in range(na):
+            ops.append({"op": "init", "c": rng.choice(["ASpectral", "ASpectral", "ASpectral", "ACoherence", "ASparse"]),
+                        "d": rng.choice([None] + list(range(nd_))), "s": rng.randint(0, 2)})
+        cls_ = [o["c"] for o in ops if o["op"] == "init"]
+        done = [set() for _ in range(na)]
+        for _ in range(rng.randint(4, 9)):
+            a = rng.randint(0, na - 1)
+            if rng.random() < 0.3:
+                ops.append({"op": "set_input", "a": a, "s": rng.randint(0, 2)})
+                done[a] = set()
+            else:
+                left = [r for r in CLS_ATTRS[cls_[a]] if r not in done[a]]
+                if left:
+                    r = rng.choice(left)
+                    done[a].add(r)
+                    ops.append({"op": "read", "a": a, "r": r})
+    # a property is computed once: drop repeated reads of the same attribute between two set_inputs
+    seen_, out = {}, []
+    for o in ops:
+        if o["op"] == "set_input":
+            seen_[o["a"]] = set()
+        if o["op"] == "read":
+            if o["r"] in seen_.setdefault(o["a"], set()):
+                continue
+            seen_[o["a"]].add(o["r"])
+        out.append(o)
+    return {"series": series, "ops": out}
+
+
 # ----------------------------------------------------------------------------- G: keyword table
 def gen_handover():
     """which keywords every analyzer output passes to TimeSeries(...): read off the running code by
@@ -943,6 +1147,11 @@ def run_one(item, tmp):
         rec = run_concat(item["spec"])
         cases = [concat_case(rec)] if "out" in rec else []
         fails = list(oracle_concat(rec))
+    elif k == "seq":
+        rec = run_seq(item["spec"])
+        cases = []
+        rec["_seq_case"] = seq_case(rec) if "sobs" in rec and len(rec["seen"]) == len(item["spec"]["ops"]) else None
+        fails = list(oracle_seq(rec))
     else:
         rec = run_read(item["spec"], tmp)
         cases = read_cases(rec)
@@ -989,12 +1198,17 @@ def run(ctx):
     items += [{"kind": "axis", "spec": gen_axis_spec(rng, ctx.quick, k)} for k in range(n_axis)]
     items += [{"kind": "concat", "spec": gen_concat_spec(rng, k)} for k in range(ctx.scale(60, 600))]
     items += [{"kind": "read", "spec": gen_read_spec(rng, k)} for k in range(ctx.scale(64, 480))]
+    items += [{"kind": "seq", "spec": gen_seq_spec(rng, k)} for k in range(ctx.scale(40, 300))]
     tmp = tempfile.mkdtemp(prefix="c15_nifti_")
     all_cases, all_fails = [], []
+    seq_cases = []
     ndiff = nfs = nouts = 0
     try:
         for it in items:
             rec, cases, fails = run_one(it, tmp)
+            if rec.get("_seq_case") is not None:
+                rec["_seq_case"].item = it
+                seq_cases.append(rec["_seq_case"])
             for c in cases:
                 c.item = it
             all_cases += cases
@@ -1005,13 +1219,15 @@ def run(ctx):
     finally:
         shutil.rmtree(tmp, ignore_errors=True)
     bad = check_cases_retry(ctx, "K", HEADER, all_cases, "check", shard=ctx.scale(40, 120), case_type="case")
-    bad_items = {id(all_cases[i].item) for i in bad}
+    sbad = check_cases_retry(ctx, "KS", HEADER, seq_cases, "(fun c => check_seq (fst c) (snd c))", shard=ctx.scale(40, 100),
+                             case_type="(list op * list (option float))")
+    bad_items = {id(all_cases[i].item) for i in bad} | {id(seq_cases[i].item) for i in sbad}
     reported = set()
     for f, it in all_fails:
         f.replay = {"entry_point": f.key, "item": it, "model_disagrees": id(it) in bad_items}
         if ctx.report_fail(f, None):
             reported.add(id(it))
-    ctx.extra["model_impl_disagreements"] = len(bad)
+    ctx.extra["model_impl_disagreements"] = len(bad) + len(sbad)
     ctx.extra["differential_validation"] = {
         "note": "implementation-vs-implementation (analyzer result vs direct algorithm call on series.data with "
                 "Fs=float(series.sampling_rate); reader output vs the documented pipeline applied by hand): "
